@@ -40,7 +40,9 @@ def run_tlc():
             shutil.copy(os.path.join(TLA_DIR, f), tmp)
         r = subprocess.run(["tlc", "-workers", "1", "-noGenerateSpecTE", "-metadir", os.path.join(tmp, "meta"), "-deadlock",
                             "-dump", "dot,actionlabels", os.path.join(tmp, "graph"), "MemoProtocol"],
-                           cwd=tmp, capture_output=True, text=True, timeout=600)
+                           cwd=tmp, capture_output=True, text=True, timeout=600,
+                           # TLC creates an (empty) scratch directory under java.io.tmpdir on every start: keep it inside tmp
+                           env=dict(os.environ, JAVA_TOOL_OPTIONS="-Djava.io.tmpdir=" + tmp))
         out = r.stdout + r.stderr
         if "No error has been found" not in out:
             return {"error": out[-2000:]}
